@@ -57,6 +57,95 @@ def reader_consumed_once(ctx):
         ctx.holds("R17.6", "gaftools/", "no reader object has read_file() called on it twice in one function", nontrivial=False)
 
 
+def r16_10(ctx):
+    """The parsed record carries what the line said: (a) the record constructor stores each value it is handed unchanged
+    in its field; (b) the parser's value for `no CIGAR field` is the empty string — the record's __str__ writes the CIGAR
+    back into the tag mapping whenever it is truthy, so any other default invents a field."""
+    repo = ctx.repo
+    schema, extras = gaf_schema(repo, "R16.10")
+    ctor = repo.find_func("gaftools.gaf", f"{extras['class']}.__init__")
+    if ctor is None:
+        raise AnalysisError("R16.10", "gaftools/gaf.py", "cannot find the record constructor")
+    ctx.analysed_func(ctor)
+    params = set(ctor.params[1:])
+    n_store = 0
+    for st in walk_own(ctor.node):
+        if isinstance(st, ast.Assign) and len(st.targets) == 1 and isinstance(st.targets[0], ast.Attribute) and norm(st.targets[0].value) == "self":
+            used = {x.id for x in ast.walk(st.value) if isinstance(x, ast.Name)} & params
+            if not used:
+                continue
+            n_store += 1
+            if isinstance(st.value, ast.Name):
+                continue
+            ctx.violated("R16.10", ctor.where(st), f"the record constructor stores `{norm(st.value)[:70]}` in the field `{st.targets[0].attr}`, not the value parsed from the line: every consumer of the record (view, realign, stat, the converters) then works on an edited value", key_of(ctor, f"ctor-edits:{st.targets[0].attr}:{norm(st.value)[:40]}"))
+    ctx.require_count("R16.10", n_store, 12, ctor.where(), "fields stored by the record constructor from its parameters")
+    ctx.holds("R16.10", ctor.where(), f"the record constructor stores each of its {n_store} parameters unchanged")
+    # (b) the parser's CIGAR local: the argument handed over as the constructor's cigar parameter
+    pf = extras["parser_nf"]
+    ret = None
+    for n in walk_own(pf.node):
+        if isinstance(n, ast.Return) and isinstance(n.value, ast.Call):
+            c = repo.resolve_call(pf, n.value)
+            if c is not None and c.name == "__init__":
+                ret = n.value
+    if ret is None:
+        raise AnalysisError("R16.10", pf.where(), "parser does not return a constructed record")
+    cparams = ctor.params[1:]
+    amap = {p_: a for p_, a in zip(cparams, ret.args)}
+    amap.update({k.arg: k.value for k in ret.keywords if k.arg})
+    cparam = next((p_ for p_ in cparams if p_ == extras["cigar_attr"] or p_ == "cigar"), None)
+    carg = amap.get(cparam)
+    if not isinstance(carg, ast.Name):
+        raise AnalysisError("R16.10", pf.where(ret), "cannot find the local that carries the CIGAR to the record constructor")
+    consts = [st for st in walk_own(pf.node) if isinstance(st, ast.Assign) and len(st.targets) == 1 and norm(st.targets[0]) == carg.id and isinstance(st.value, ast.Constant)]
+    if not consts:
+        raise AnalysisError("R16.10", pf.where(ret), f"`{carg.id}` has no constant default in the parser: what a record without a cg:Z field carries is not read")
+    for st in consts:
+        ctx.check(st.value.value == "" or st.value.value is None, "R16.10", pf.where(st), "a record without a cg:Z field carries an empty CIGAR (the serialiser writes a truthy CIGAR back as a cg:Z field)", key_of(pf, f"cigar-default:{st.value.value!r}"), default=repr(st.value.value))
+
+
+def r16_11(ctx):
+    """Every constant key with which a parsed record's tag mapping is consulted has the form the parser stores
+    (`TAG:TYPE:`, e.g. "tp:A:"): a look-up with "tp:A" or "cg:Z" can never find anything and silently takes its default."""
+    import re as _re
+
+    from .common import record_params
+
+    repo = ctx.repo
+    schema, extras = gaf_schema(repo, "R16.11")
+    tags_attr = extras["tags_attr"]
+    form = _re.compile(r"^[A-Za-z][A-Za-z0-9]:[AifZHB]:$")
+    n = bad = 0
+    for f in repo.all_funcs():
+        if f.module.name in ("gaftools.gfa", "gaftools.cli.order_gfa"):
+            continue
+        recs = set(record_params(f, schema)) | ({"self"} if f.cls == extras["class"] else set())
+        for x in walk_own(f.node):
+            if isinstance(x, ast.For) and isinstance(x.iter, ast.Call) and isinstance(x.iter.func, ast.Attribute) and x.iter.func.attr == "read_file" and isinstance(x.target, ast.Name):
+                recs.add(x.target.id)
+            if isinstance(x, ast.Assign) and isinstance(x.value, ast.Call) and isinstance(x.value.func, ast.Attribute) and x.value.func.attr in ("read_line", "parse_gaf_line") and isinstance(x.targets[0], ast.Name):
+                recs.add(x.targets[0].id)
+        if not recs:
+            continue
+        bases = {f"{r}.{tags_attr}" for r in recs}
+        for x in walk_own(f.node):
+            key = None
+            if isinstance(x, ast.Subscript) and norm(x.value) in bases:
+                key = x.slice
+            elif isinstance(x, ast.Call) and isinstance(x.func, ast.Attribute) and x.func.attr in ("get", "pop", "setdefault") and norm(x.func.value) in bases and x.args:
+                key = x.args[0]
+            elif isinstance(x, ast.Compare) and len(x.ops) == 1 and isinstance(x.ops[0], (ast.In, ast.NotIn)) and norm(x.comparators[0]) in bases | {b + ".keys()" for b in bases}:
+                key = x.left
+            if key is None or not (isinstance(key, ast.Constant) and isinstance(key.value, str)):
+                continue
+            n += 1
+            if not form.match(key.value):
+                bad += 1
+                ctx.violated("R16.11", f.where(x), f"`{norm(x)[:70]}` consults the record's optional fields with the key {key.value!r}: the parser stores them under `TAG:TYPE:` (e.g. 'tp:A:'), so this key is never present and the look-up silently takes its default / its absent branch for every record", key_of(f, f"tag-key-form:{key.value}"))
+    if not bad:
+        ctx.holds("R16.11", "gaftools/", f"all {n} constant keys used on a parsed record's tag mapping have the stored form TAG:TYPE:", nontrivial=n > 0)
+
+
 def gaf_reader(ctx):
     """openers (R17.1), whole-line reads (R17.5), reader contract (R17.6)"""
     if not _once(ctx, "gaf_reader"):
@@ -69,6 +158,8 @@ def gaf_reader(ctx):
     ctx.run(r17_6)
     ctx.run(reader_consumed_once)
     ctx.run(r16_9)
+    ctx.run(r16_10)
+    ctx.run(r16_11)
 
 
 def _reader_class(repo, rule):
@@ -781,7 +872,35 @@ def pitfall_lints(ctx, funcs, rule):
     from ..core import norm, walk_own
 
     n = 0
+    _VALUE_CALLS = ("int", "str", "float", "len", "abs", "min", "max", "sum", "round", "ord", "chr", "repr", "bytes")
+
+    def value_evidence(f, o, used_as_value):
+        """positive evidence that the operand is a number / text (not an object whose identity means something)"""
+        if isinstance(o, ast.Constant) and isinstance(o.value, (int, float, str, bytes)) and not isinstance(o.value, bool):
+            return True
+        if isinstance(o, (ast.BinOp, ast.JoinedStr, ast.Tuple)):
+            return True
+        if isinstance(o, ast.Call) and isinstance(o.func, ast.Name) and o.func.id in _VALUE_CALLS:
+            return True
+        if isinstance(o, ast.Call) and isinstance(o.func, ast.Attribute) and o.func.attr in ("strip", "rstrip", "lstrip", "lower", "upper", "join", "format", "decode", "encode", "count", "index", "find"):
+            return True
+        t = norm(o)
+        if t in used_as_value:
+            return True
+        if isinstance(o, ast.Attribute) and any(u.endswith("." + o.attr) for u in used_as_value):
+            return True  # the same field of a sibling object is ordered / added elsewhere in the function
+        return False
+
     for f in funcs:
+        # expressions the function itself treats as numbers or text: operands of <, <=, >, >= and of arithmetic
+        used_as_value = set()
+        for c in walk_own(f.node):
+            if isinstance(c, ast.Compare) and any(isinstance(o, (ast.Lt, ast.LtE, ast.Gt, ast.GtE)) for o in c.ops):
+                used_as_value |= {norm(o) for o in [c.left] + list(c.comparators) if isinstance(o, (ast.Name, ast.Attribute, ast.Subscript))}
+            if isinstance(c, ast.BinOp) and isinstance(c.op, (ast.Add, ast.Sub, ast.Mult, ast.Mod, ast.FloorDiv, ast.Div)):
+                used_as_value |= {norm(o) for o in (c.left, c.right) if isinstance(o, (ast.Name, ast.Attribute, ast.Subscript))}
+        singles = {k for k, v in f.module.consts.items() if isinstance(v, ast.Call) and norm(v.func) == "object"}
+        singles |= {st.targets[0].id for st in walk_own(f.node) if isinstance(st, ast.Assign) and len(st.targets) == 1 and isinstance(st.targets[0], ast.Name) and isinstance(st.value, ast.Call) and norm(st.value.func) == "object"}
         for c in walk_own(f.node):
             if isinstance(c, ast.Compare) and any(isinstance(o, (ast.Is, ast.IsNot)) for o in c.ops):
                 operands = [c.left] + list(c.comparators)
@@ -789,6 +908,10 @@ def pitfall_lints(ctx, funcs, rule):
                     continue
                 if any(norm(o).startswith("sys.") for o in operands):
                     continue
+                if any(isinstance(o, ast.Name) and o.id in singles for o in operands):
+                    continue  # a private sentinel (`_MISSING = object()`): identity is the point
+                if not any(value_evidence(f, o, used_as_value) for o in operands):
+                    continue  # nothing says these are numbers or text: identity of objects may be meant
                 n += 1
                 ctx.violated(rule, f.where(c), f"`{norm(c)[:70]}` compares object identity, not value: two equal integers above 256 (or two equal strings read from a file) are different objects, so equal values are treated as different", key_of(f, f"identity-of-values:{norm(c)[:50]}"))
             if isinstance(c, ast.For) and isinstance(c.iter, ast.Name):
